@@ -16,10 +16,10 @@ CLAIMED = {
  "C06": dict(cat="proof", tech="value numbering with constant-loop unrolling -> bit matrix; GF(2) polynomial algebra (Krylov solve, x^(2^k) mod chi)",
    text="The linear map M computed by each of the 24 jump/long_jump bodies is extracted from MIR and proved equal to T^(2^(n/2)) resp. T^(2^(3n/4)) for the step matrix T of the same type: M = p(T) is verified on a Krylov basis and p = x^(2^k) mod chi with chi primitive.",
    note=TB + "; primitivity of chi from C07", ref="4/C06"),
- "C07": dict(cat="proof", tech="bit-matrix extraction by value numbering; rank, Berlekamp-Massey minimal polynomial, primitivity test with certified factorisation of 2^n-1; matrix identity of the other word method with T or T^2",
-   text="For each of the 15 linear generator types the step is shown GF(2)-linear without constant term, of full rank, with a primitive characteristic polynomial of degree n; this is equivalent to the statement (single cycle of length 2^n-1 on the non-zero states); the state map of the non-native word method is the matrix T resp. T^2, so every stepping operation moves along that cycle.",
+ "C07": dict(cat="proof", tech="bit-matrix extraction by value numbering; rank, Berlekamp-Massey minimal polynomial, primitivity test with certified factorisation of 2^n-1; matrix identity of the other word method with T or T^2 and of fill_bytes at constant lengths with T^k",
+   text="For each of the 15 linear generator types the step is shown GF(2)-linear without constant term, of full rank, with a primitive characteristic polynomial of degree n; this is equivalent to the statement (single cycle of length 2^n-1 on the non-zero states); the state map of the non-native word method is the matrix T resp. T^2, so every stepping operation moves along that cycle; fill_bytes on a destination of each constant length in the tier's range advances the state by T^k, k the number of native steps of C05's word table.",
    note=TB + "; factor table of 2^512-1 re-verified with Pratt certificates on every run", ref="4/C07"),
- "C05": dict(cat="other", tech="value numbering with the projected method kept as an opaque, state-threading call; identity with the projection table; bounded evaluation of every fill_bytes on constant-length destinations (rand_core's helper inlined)",
+ "C05": dict(cat="other", tech="value numbering with the projected method kept as an opaque, state-threading call; identity with the projection table; bounded evaluation of every fill_bytes on constant-length destinations (rand_core's helper inlined); in-place evaluation of the word methods for bodies that do not call them",
    text="For each of the 20 generator types the three RngCore methods are value-numbered and compared (normal-form identity of returned value, final state, destination buffer, call count, absence of other effects) with the row of the projection table the property states: which half, which order, how many native calls, which delegate; fill_bytes of the xoshiro family, XorShiftRng and JitterRng is additionally evaluated for every length 0..=17 (thorough 0..=40) and compared byte for byte with the table row.",
    note=TB + "; a hand-written fill_bytes that is not a plain delegation is decided for the listed lengths only; BlockRng's refill behaviour is the dependency's", ref="4/C05"),
  "C08": dict(cat="other", tech="value numbering under path assumptions (zero / non-zero seed), GF(2) rank of the decode, bijection-chain recognition of SplitMix64's output, constant propagation of the zero-seed path, who-constructs query, compile-fail witness",
@@ -28,7 +28,7 @@ CLAIMED = {
  "C10": dict(cat="other", tech="value numbering of every Clone::clone and PartialEq::eq body on symbolic values; identity with the all-fields conjunction",
    text="Every Clone impl returns a value identical in every leaf; every == is exactly the conjunction of whole-leaf equalities over all fields (one reasoned exception: the == of a wrapper around rand_core's BlockRng/BlockRng64 may omit the buffer `results`, and only that).",
    note=TB + "; futures depend on fields only: C19", ref="4/C10"),
- "C11": dict(cat="other", tech="value numbering of the derive-generated serialize / visit_seq bodies and of isaac_array_serde with opaque (de)serializer; per-argument taint of opaque calls; call-site counts for visit_map",
+ "C11": dict(cat="other", tech="value numbering of the derive-generated serialize / visit_seq bodies and of isaac_array_serde with opaque (de)serializer; per-argument taint of opaque calls; call-site counts for visit_map; identity of every generated with-wrapper / newtype-visitor result with the unmodified result of one deserializer call (helpers inlined); element order of generated serialize wrappers",
    text="Field-complete writer, field-complete reader (no default/skip), same order, and agreement (length 256, order) of the hand-written 256-element array (de)serializer, decided on the serde configuration's facts for all 21 serializable types.",
    note=TB + "; serde_derive attribute semantics, rand_core's BlockRng derives, the wire format", ref="4/C11"),
  "C17": dict(cat="other", tech="taint analysis over value-numbered fmt bodies with trait objects followed through compiler-resolved vtables",
@@ -49,7 +49,7 @@ CLAIMED = {
  "C14": dict(cat="proof", tech="abstract interpretation of every API root on dev-profile MIR: constant folding, known bits, intervals with path assumptions, loop invariants (havoc + interval fixpoint + acceleration), inductive class invariant for Hc128Core",
    text="Every Assert terminator (overflow, bounds, division, shift) and library precondition reachable from any API root with unconstrained arguments is discharged; explicit panics are exactly the documented table; unknown callees are reported; the counter invariant of Hc128Core is re-proved at every exit.",
    note=TB + "; asserts inside rand_core's generic machinery are listed, not judged; platform clock unwrap excluded with reason", ref="4/C14"),
- "C15": dict(cat="proof", tech="who-writes query on JitterRng.data; GF(2) bit-matrix extraction of every pool update by value numbering (constant loops unrolled), the pool followed through loop summaries with pool-independence of every branch / continuation / exit condition; rank",
+ "C15": dict(cat="proof", tech="who-writes query on JitterRng.data; GF(2) bit-matrix extraction of every pool update by value numbering (constant loops unrolled), the pool followed through loop summaries with pool-independence of every branch / continuation / exit condition, control dependence of loop variables on pool-dependent trip counts; rank",
    text="Each of the pool's writers is shown to map the old pool affinely with a rank-64 matrix (LFSR fold: also rank 64 in the time value; rotation; stir), or to store the value the collection just produced; where the pool is carried through a loop, the per-iteration update is one-to-one and the number of iterations does not depend on the pool.",
    note=TB, ref="4/C15"),
  "C16": dict(cat="other", tech="typestate by value numbering with gen_entropy as an opaque state-threading call; who-writes query; loop record of the rounds loop; bounded evaluation of the type's fill_bytes for constant lengths; exposure analysis over pairs of output calls; bounded sequence model (<= 3 calls, clone) that names only the field `data`",
@@ -61,7 +61,7 @@ CLAIMED = {
  "C03": dict(cat="other", tech="value numbering of generate / init / from_seed / seed_from_u64 of both cores on symbolic state (256-word symbolic memory, data-dependent look-ups as select terms); normal-form identity with the transcription of rand.c / isaac64.c",
    text="One refill block from an arbitrary symbolic state equals one reference isaac()/isaac64() call in all 256 memory words, a, b, c and all 256 result slots (slot 255-i = i-th word); init equals randinit (constants re-derived from the golden ratio by the reference mixer); from_seed and seed_from_u64 equal randinit(TRUE)/one pass on the documented key layout.",
    note=TB + "; whole-stream equality is the induction over blocks; BlockRng/BlockRng64 order is the dependency's", ref="4/C03"),
- "C09": dict(cat="other", tech="value numbering of the seeding routes with rand_core's default from_rng and fill_bytes_via_next inlined for the constant seed length; identity with from_seed on the reference SplitMix64 byte stream; impl-table queries; sibling comparison of from_rng / try_from_rng; loop records of the redraw loops",
+ "C09": dict(cat="other", tech="value numbering of the seeding routes with rand_core's default from_rng and fill_bytes_via_next inlined for the constant seed length; identity with from_seed on the reference SplitMix64 byte stream; impl-table queries; sibling comparison of from_rng / try_from_rng; loop records of the redraw loops; whole-route comparison with the reference initialisation when the private helper between route and state has another shape",
    text="xoshiro seed_from_u64(x) = from_seed(LE bytes of the reference SplitMix64 stream at x) for all 14 types; non-overriding impls and wrapper delegation are decided from the impl tables and call atoms; ISAAC seed_from_u64 / from_rng / try_from_rng key layout, byte counts, pass counts and error discipline; XorShiftRng redraw loops leave only with a non-zero block (or the source's error).",
    note=TB + "; rand_core's PCG32 seed_from_u64 default is the dependency's", ref="4/C09"),
 }
